@@ -356,7 +356,7 @@ pub fn subchecks(tier: Tier) -> Vec<SubCheck> {
     let wt_seed = move || -> u64 {
         std::env::var("VERIF_SEED").ok().and_then(|s| s.trim().parse::<i128>().ok()).map(|v| v as u64).unwrap_or(0) ^ 0xC13
     };
-    let cases = tier.pick(200_000, 1_000_000);
+    let cases = tier.pick(200_000, 4_000_000);
     let rule = "total size on / around every border 192*2^n (n = 0..30, delta -2..2), around 96 GiB and 192 GiB (limit, limit +- k), 4095/4096/4097, small and log-uniform sizes; content = one or two word programs aimed at the levels around the initial index (incl. level-30 words) embedded in zero bytes fed through the hook, split before/between the programs, size declared before / after / not at all; oracle = reference models A and B with closed-form zero runs; non-trivial = size > 2^24 with >= 32 pieces at the selected level, or a size above the limit; distinct by case";
     let main = SubCheck {
         name: "sizes_vs_models",
@@ -387,7 +387,7 @@ pub fn subchecks(tier: Tier) -> Vec<SubCheck> {
         generated(
             "hook_equiv",
             "validates the hook, not the library: (state-establishing program, n zero bytes, continuation): verif_feed_zeroes(n) vs really feeding n zeros in mixed update forms: identical {:?} state and identical behaviour on the continuation; n dense in 0..=4096, sampled up to 2^24 (quick) / 2^28 (thorough); non-trivial = n > 7; distinct by case",
-            tier.pick(6_000, 24_000),
+            tier.pick(6_000, 12_000),
             move || hook_strategy(wt_seed(), max_log),
             eval_hook,
         ),
